@@ -8,15 +8,16 @@ EXTENDS CLex0
 \* ---------------------------------------------------------------- bounded instance: all texts
 CONSTANTS Shape,   \* sequence of sets of strings: a text is one element of Shape[1], then of Shape[2], ...
           Types    \* identifiers the type-lookup callback answers TRUE for
-VARIABLES text, n, phase, st, out, err
-vars == <<text, n, phase, st, out, err>>
+VARIABLES text, n, phase, st, out, err,
+          chosen     \* history: the chunks picked from Shape[1], Shape[2], ...
+vars == <<text, n, phase, st, out, err, chosen>>
 
-Init == text = "" /\ n = 0 /\ phase = "build" /\ st = InitState("f.c") /\ out = <<>> /\ err = <<>>
+Init == text = "" /\ n = 0 /\ phase = "build" /\ st = InitState("f.c") /\ out = <<>> /\ err = <<>> /\ chosen = <<>>
 Grow == /\ phase = "build" /\ n < Len(Shape)
-        /\ \E c \in Shape[n+1] : text' = text \o c
+        /\ \E c \in Shape[n+1] : text' = text \o c /\ chosen' = Append(chosen, c)
         /\ n' = n + 1
         /\ UNCHANGED <<phase, st, out, err>>
-Begin == phase = "build" /\ phase' = "lex" /\ UNCHANGED <<text, n, st, out, err>>
+Begin == phase = "build" /\ phase' = "lex" /\ UNCHANGED <<text, n, st, out, err, chosen>>
 TokenCall ==
   /\ phase = "lex"
   /\ LET r == Call(text, st, Types) IN
@@ -25,7 +26,7 @@ TokenCall ==
         ELSE IF r.tok = <<>> THEN phase' = "done" /\ UNCHANGED <<err, out>>
         ELSE phase' = "lex" /\ UNCHANGED err
              /\ out' = Append(out, [ty |-> r.tok[1], val |-> r.tok[2], line |-> r.tok[3], col |-> r.tok[4], start |-> r.start])
-  /\ UNCHANGED <<text, n>>
+  /\ UNCHANGED <<text, n, chosen>>
 Next == Grow \/ Begin \/ TokenCall
 Spec == Init /\ [][Next]_vars
 
@@ -58,6 +59,17 @@ Accounted ==
      \A p \in 0..(Len(text)-1) :
         \/ Ch(text, p) \in Blank \cup {"\n"}
         \/ \E i \in 1..Len(out) : out[i].start <= p /\ p < out[i].start + Len(out[i].val)
+
+\* LayoutInvariance (C17): when a text is token, gap, token, gap, ... and every gap separates
+\* (contains a blank or a newline), the tokens returned are exactly the chosen tokens, each with
+\* the class it has when lexed alone - whatever the gaps are (blanks, newlines, line directives)
+IsSeparating(g) == \E i \in 1..Len(g) : SubSeq(g, i, i) \in {" ", "\t", "\n"}
+NoPragma(g) == \A i \in 1..Len(g) : SubSeq(g, i, i) # "p" \/ i + 5 > Len(g) \/ SubSeq(g, i, i+5) # "pragma"
+LayoutInvariant ==
+  (phase = "done" /\ \A k \in 1..Len(chosen) : (k % 2 = 0) => (IsSeparating(chosen[k]) /\ NoPragma(chosen[k])))
+  => /\ Len(out) = (Len(chosen) + 1) \div 2
+     /\ \A j \in 1..Len(out) : /\ out[j].val = chosen[2*j - 1]
+                               /\ out[j].ty = ClassOf(chosen[2*j - 1], Types)
 
 Finished == phase \in {"done", "err"}
 \* when the whole text is one literal: the Constant.type its spelling implies (C10)
